@@ -96,8 +96,8 @@ void vf::run_case(Src &s, Ctx &c)
     } guard{si, scratch, tmp};
     // ---- input path
     og::PathGeometric path(si);
-    size_t shape = s.weighted({3, 5, 1, 1});
-    const char *shapeName[] = {"random-valid-polyline", "detour-around-obstacle", "tiny(1-2 states)", "with-repeated-states"};
+    size_t shape = s.weighted({3, 5, 1, 1, 1});
+    const char *shapeName[] = {"random-valid-polyline", "detour-around-obstacle", "tiny(1-2 states)", "with-repeated-states", "all-states-identical"};
     double sx, sy;
     P->ps.xy(P->starts[0], sx, sy);
     path.append(P->starts[0]);
@@ -132,6 +132,13 @@ void vf::run_case(Src &s, Ctx &c)
         if (s.flag())
             appendXY(*P, s, path, sx + s.real(-1, 1), sy + s.real(-1, 1), scratch, tmp);
     }
+    else if (shape == 4)
+    {
+        // every segment has zero length: 2..5 copies of the start state
+        int copies = s.in(1, 4);
+        for (int k = 0; k < copies; ++k)
+            path.append(P->starts[0]);
+    }
     else
     {
         int n = s.in(1, 12);
@@ -156,7 +163,7 @@ void vf::run_case(Src &s, Ctx &c)
     }
     // optionally end at the goal
     bool endsAtGoal = false;
-    if (s.flag() && path.getStateCount() > 0 && motionOk(*P, path.getState(path.getStateCount() - 1), P->goals[0], tmp))
+    if (shape != 4 && s.flag() && path.getStateCount() > 0 && motionOk(*P, path.getState(path.getStateCount() - 1), P->goals[0], tmp))
     {
         path.append(P->goals[0]);
         endsAtGoal = true;
